@@ -64,7 +64,7 @@ def main(argv):
                             verdicts.append((pid, "BROKEN", out[-600:]))
                         elif kind == "mutant":
                             exp = m.get("expect", "")
-                            hit = any(exp in k for k in new)
+                            hit = any(e in k for e in exp.split("|") for k in new)
                             verdicts.append((pid, "CAUGHT" if hit else ("WRONG-REPORT" if new else "MISSED"), "; ".join(sorted(new))[:400]))
                         else:
                             verdicts.append((pid, "SILENT" if not new else "FALSE-ALARM", "; ".join(sorted(new))[:400]))
